@@ -102,6 +102,60 @@ def _cat_member(name, cp):
     return bool(catbits()[cp] & _CAT_BIT[name])
 
 
+_cased = None
+
+
+def tolower(cp, ascii_mode=False):
+    import _sre
+    return _sre.ascii_tolower(cp) if ascii_mode else _sre.unicode_tolower(cp)
+
+
+def cased_codepoints():
+    """Code points changed by sre's simple lower-casing (plus the extra case-fix members)."""
+    global _cased
+    if _cased is None:
+        import _sre
+        try:
+            import re._casefix as cf
+            extra = cf._EXTRA_CASES
+        except ImportError:  # pragma: no cover
+            extra = {}
+        pts = set(cp for cp in range(MAXCP) if _sre.unicode_tolower(cp) != cp)
+        for k, vs in extra.items():
+            pts.add(k)
+            pts.update(vs)
+        _cased = sorted(pts)
+    return _cased
+
+
+def icase_raw(raw, ascii_mode=False):
+    """Class matched under re.IGNORECASE: ch matches iff lower(ch) is in the lower-cased class (sre semantics)."""
+    try:
+        import re._casefix as cf
+        extra = {} if ascii_mode else cf._EXTRA_CASES
+    except ImportError:  # pragma: no cover
+        extra = {}
+    _, neg, items = raw
+    lits = set()
+    keep = []
+    for it in items:
+        if it[0] == "lit":
+            lo = tolower(it[1], ascii_mode)
+            lits.add(lo)
+            lits.update(extra.get(lo, ()))
+        elif it[0] == "range":
+            if it[2] - it[1] > 70000:
+                raise AnalysisError("IGNORECASE over a very large character range is not modelled")
+            for i in range(it[1], it[2] + 1):
+                lo = tolower(i, ascii_mode)
+                lits.add(lo)
+                lits.update(extra.get(lo, ()))
+        else:
+            keep.append(it)
+    inner = tuple(sorted(("lit", x) for x in lits)) + tuple(keep)
+    return ("set", neg, (("icase", ascii_mode, inner),))
+
+
 def raw_contains(raw, cp, ascii_only=False):
     _, neg, items = raw
     hit = False
@@ -129,6 +183,11 @@ def raw_contains(raw, cp, ascii_only=False):
                 break
         elif k == "nacat":
             if not (cp < 128 and _ASCII_CAT[it[1]](chr(cp))):
+                hit = True
+                break
+        elif k == "icase":
+            lc = tolower(cp, it[1])
+            if raw_contains(("set", False, it[2]), lc):
                 hit = True
                 break
         else:
@@ -179,6 +238,16 @@ class Alphabet:
                     cats.add(it[1])
                 elif it[0] in ("acat", "nacat"):
                     points.update(range(129))
+                elif it[0] == "icase":
+                    for cp in cased_codepoints():
+                        points.add(cp); points.add(cp + 1)
+                    for sub in it[2]:
+                        if sub[0] == "lit":
+                            points.add(sub[1]); points.add(sub[1] + 1)
+                        elif sub[0] in ("cat", "ncat"):
+                            cats.add(sub[1])
+                        elif sub[0] in ("acat", "nacat"):
+                            points.update(range(129))
         points = sorted(p for p in points if 0 <= p <= MAXCP)
         mask = 0
         for c in cats:
@@ -313,8 +382,6 @@ class Regex:
             raise AnalysisError(f"regex {pattern!r} does not parse: {e}")
         self.flags = parsed.state.flags if hasattr(parsed, "state") else flags
         if self.flags & (re.IGNORECASE | re.MULTILINE | re.DOTALL | re.VERBOSE) & ~re.VERBOSE:
-            if self.flags & re.IGNORECASE:
-                raise AnalysisError(f"regex {pattern!r}: IGNORECASE not supported")
             if self.flags & re.MULTILINE:
                 raise AnalysisError(f"regex {pattern!r}: MULTILINE not supported")
         seq = list(parsed)
@@ -336,13 +403,13 @@ class Regex:
     def _collect(self, seq):
         for op, av in seq:
             if op is sre_c.LITERAL:
-                self.raws.append(("set", False, (("lit", av),)))
+                self.raws.append(self._raw(("set", False, (("lit", av),))))
             elif op is sre_c.NOT_LITERAL:
-                self.raws.append(("set", True, (("lit", av),)))
+                self.raws.append(self._raw(("set", True, (("lit", av),))))
             elif op is sre_c.ANY:
                 self.raws.append(("set", True, (("lit", 10),)) if not self.flags & re.DOTALL else RAW_ANY)
             elif op is sre_c.IN:
-                self.raws.append(_in_items_to_raw(av, self.flags))
+                self.raws.append(self._raw(_in_items_to_raw(av, self.flags)))
             elif op in (sre_c.MAX_REPEAT, sre_c.MIN_REPEAT):
                 self._collect(list(av[2]))
             elif op is sre_c.SUBPATTERN:
@@ -361,14 +428,14 @@ class Regex:
         cur = start
         for op, av in seq:
             if op is sre_c.LITERAL:
-                cur = self._step(nfa, cur, alpha.atoms_of(("set", False, (("lit", av),))))
+                cur = self._step(nfa, cur, alpha.atoms_of(self._raw(("set", False, (("lit", av),)))))
             elif op is sre_c.NOT_LITERAL:
-                cur = self._step(nfa, cur, alpha.atoms_of(("set", True, (("lit", av),))))
+                cur = self._step(nfa, cur, alpha.atoms_of(self._raw(("set", True, (("lit", av),)))))
             elif op is sre_c.ANY:
                 raw = ("set", True, (("lit", 10),)) if not self.flags & re.DOTALL else RAW_ANY
                 cur = self._step(nfa, cur, alpha.atoms_of(raw))
             elif op is sre_c.IN:
-                cur = self._step(nfa, cur, alpha.atoms_of(_in_items_to_raw(av, self.flags)))
+                cur = self._step(nfa, cur, alpha.atoms_of(self._raw(_in_items_to_raw(av, self.flags))))
             elif op is sre_c.CATEGORY:
                 raw = ("set", False, (_category_item(av, bool(self.flags & re.ASCII)),))
                 cur = self._step(nfa, cur, alpha.atoms_of(raw))
@@ -407,6 +474,11 @@ class Regex:
             else:
                 raise AnalysisError(f"regex {self.pattern!r}: unsupported construct {op}")
         return cur
+
+    def _raw(self, raw):
+        if self.flags & re.IGNORECASE:
+            return icase_raw(raw, bool(self.flags & re.ASCII))
+        return raw
 
     @staticmethod
     def _step(nfa, cur, atoms):
